@@ -220,7 +220,80 @@ pub fn repeated_identifiers(rep: &mut Rep, base_idx: u64, prop: &'static str) {
     }
 }
 
+/// The application gives up on run() (drops its future) while the acknowledgement of a first QoS 2 delivery is waiting for
+/// the transport to take it, and calls run() again; the broker, having seen no PUBREC, delivers the message again. Whatever
+/// the client had done with the first delivery before it was interrupted, the stream ends up with the message exactly once.
+fn run_given_up_while_acknowledging(rep: &mut Rep) {
+    use crate::sim::Cmd;
+    rep.note("run() given up while acknowledging: the transport accepts nothing (or 1-3 bytes) of the PUBREC for a first QoS 2 delivery, the run() future is dropped there, the transport recovers, run() is called again, the broker re-delivers (DUP), releases, and reuses the identifier: each message once in the stream");
+    let mut idx = 8_950_000u64;
+    for accept in 0..4usize {
+        for before in 0..2usize {
+            for redeliveries in 1..=2usize {
+                let id = format!("rerun-while-acking:{accept}:{before}:{redeliveries}");
+                idx += 1;
+                if !rep.take(idx, &id) {
+                    continue;
+                }
+                let mut w = World::boot(WorldCfg { seed: rep.seed, ..Default::default() });
+                let a = w.start(0, Kind::Sub);
+                w.settle_check();
+                w.deliver_ack(a, 1, 0, 0);
+                w.settle_check();
+                w.take_stream(a);
+                let sid = w.sub_id_of(a).unwrap_or(1);
+                for j in 0..before {
+                    w.in_publish(2, 30 + j as u16, false, &[sid], false);
+                    w.settle_check();
+                }
+                let at = w.sim.written_len() + accept;
+                w.sim.writer.0.borrow_mut().stall_at = Some(at);
+                w.in_publish(2, 5, false, &[sid], false);
+                w.sim.settle();
+                let stuck = w.sim.ctx_in_call() == Some("run") && w.sim.written_len() == at;
+                w.sim.cancel_run();
+                w.sim.settle();
+                w.sim.writer.0.borrow_mut().stall_at = None;
+                // (with some bytes of the PUBREC accepted the wire is torn; a broker would drop the connection - only the
+                // untorn case goes on)
+                if accept == 0 && stuck {
+                    w.sim.cmd(Cmd::Run);
+                    w.sim.settle();
+                    // the model had counted on a PUBREC for the first delivery; none was written, none is owed any more
+                    w.expected_acks.clear();
+                    for _ in 0..redeliveries {
+                        w.in_publish(2, 5, true, &[sid], false);
+                        w.settle_check();
+                    }
+                    w.in_pubrel(5);
+                    w.settle_check();
+                    w.in_publish(2, 5, false, &[sid], false);
+                    w.settle_check();
+                    w.in_pubrel(5);
+                    w.settle_check();
+                    rep.add("run_given_up_while_acknowledging_cases", 1);
+                } else {
+                    w.blind = true;
+                }
+                finish(&mut w);
+                rep.add("evaluations", 1);
+                rep.distinct(&("rerun-while-acking", accept, before, redeliveries));
+                for v in w.viols.iter_mut() {
+                    if v.sig.starts_with("stream/") && !v.props.contains(&"C09") {
+                        v.props = &["C09"];
+                    }
+                }
+                if harvest(rep, &mut w, &id) == 0 {
+                    rep.sample(|| format!("{id}: stuck in the PUBREC write = {stuck}; {} items checked", w.counters.stream_items_checked));
+                }
+                add_counters(rep, &w);
+            }
+        }
+    }
+}
+
 pub fn run(rep: &mut Rep) {
+    run_given_up_while_acknowledging(rep);
     shared_identifiers(rep, 8_800_000, "C09");
     repeated_identifiers(rep, 8_900_000, "C09");
     wide(rep, 700_000_000);
